@@ -458,7 +458,9 @@ def replay_file(path, units):
         want = rec.get("fkey")
         if any(f == want for f, _m in obs[0]):
             obs = [[(f, m) for f, m in o if f == want] for o in obs]
-    if obs[0] != obs[1]:
+    # two runs must observe the same violation classes (the texts may name digests of outputs that
+    # depend on the wall clock or the hash seed: that is what such a violation is about)
+    if [f for f, _m in obs[0]] != [f for f, _m in obs[1]]:
         print("REPLAY-NONDETERMINISTIC: two runs of the same case observed different things")
         print(obs)
         return 3
